@@ -52,6 +52,11 @@ def _mods():
     return M, S, D, E
 
 
+def _logic_error():
+    from sfc_models.utils import LogicError
+    return LogicError
+
+
 def exec_op(sess, op, index=0):
     """Execute one op. Returns outcome string: 'ok', 'noop' (missing handle) or exception class."""
     M, S, D, E = _mods()
@@ -252,6 +257,46 @@ def exec_op(sess, op, index=0):
                     return 'noop'
                 # public diagnostic dump; (re)generates the full sector codes as a side effect
                 H[op['model']].LogInfo()
+            elif name == 'Query':
+                # read-only queries a model-building script makes while it constructs (fresh lists are documented
+                # return values, so the caller may do what it likes with them); none of this declares anything
+                if not need('model', 'country', 'sector'):
+                    return 'noop'
+                w = op['what']
+                lst = None
+                try:
+                    if w == 'SectorVariables':
+                        lst = H[op['sector']].GetVariables()
+                    elif w == 'BlockEquationList':
+                        lst = H[op['sector']].EquationBlock.GetEquationList()
+                    elif w == 'ModelSectors':
+                        lst = H[op['model']].GetSectors()
+                    elif w == 'ZoneSectors':
+                        cz = H[op['country']].CurrencyZone
+                        if cz is not None:
+                            lst = cz.GetSectors()
+                    elif w == 'ZoneLookup':
+                        cz = H[op['country']].CurrencyZone
+                        if cz is not None:
+                            cz.LookupSector(op['code'])
+                    elif w == 'CountryLookup':
+                        H[op['country']].LookupSector(op['code'])
+                    elif w == 'ModelLookup':
+                        H[op['model']].LookupSector(op['code'])
+                    elif w == 'HasVariable':
+                        op['code'] in H[op['sector']].GetVariables()
+                except (KeyError, _logic_error()):
+                    return 'ok'
+                th = op.get('then')
+                if lst is not None and type(lst) is list and th:
+                    if th == 'clear':
+                        del lst[:]
+                    elif th == 'pop' and lst:
+                        lst.pop(op.get('index', 0) % len(lst))
+                    elif th == 'reverse':
+                        lst.reverse()
+                    elif th == 'append':
+                        lst.append('BOGUS_NAME' if w in ('SectorVariables', 'BlockEquationList') else None)
             elif name == 'Exclude':
                 if not need('sector'):
                     return 'noop'
